@@ -38,3 +38,25 @@ func verifMarkLock(ev string, lk *sync.RWMutex) {
 		(*h)(ev, 0, fmt.Sprintf("%p", lk))
 	}
 }
+
+// VerifFaultFn decides whether the file-system effect `ev` on `path` fails (I/O fault injection):
+// a non-nil error is returned by the call site as if the effect itself had failed.
+type VerifFaultFn func(ev, path string) error
+
+var verifFaultHook atomic.Pointer[VerifFaultFn]
+
+// SetVerifFault installs (or, with nil, removes) the fault-injection callback.
+func SetVerifFault(f VerifFaultFn) {
+	if f == nil {
+		verifFaultHook.Store(nil)
+		return
+	}
+	verifFaultHook.Store(&f)
+}
+
+func verifFault(ev, path string) error {
+	if h := verifFaultHook.Load(); h != nil {
+		return (*h)(ev, path)
+	}
+	return nil
+}
